@@ -54,7 +54,7 @@ def plan(tier, seed):
     for kind in ("quad", "hexahedron"):
         for mem in ("ref", "block", "distorted", "renum", "affine"):
             cases.append(dict(key=f"extrapolate/{kind}/{mem}", op="extrapolate", kind=kind, member=mem, seed=seed))
-    for kind in ("quad", "quad8", "quad9", "hexahedron", "hexahedron20", "triangle", "tetra"):
+    for kind in ("quad", "quad8", "quad9", "hexahedron", "hexahedron20", "hexahedron27", "triangle", "tetra"):
         for mem in ("block", "renum"):
             cases.append(dict(key=f"topoints/{kind}/{mem}", op="topoints", kind=kind, member=mem, seed=seed, cost=3))
     for mk, fk in (("hexahedron", "3d"), ("hexahedron20", "3d"), ("tetra", "3d"), ("quad", "ps"), ("quad", "axi"), ("quad8", "ps")):
@@ -246,6 +246,16 @@ def run(case):
         cpp = np.zeros(n)
         for cell in cells:
             cpp[cell] += 1
+        # "shifted to the points" is a geometric statement: quadrature point a of the region's scheme is the one that lies
+        # closest to cell point a (the index-wise reference below relies on it)
+        if nq >= npc and nq > 1:
+            qp_ = np.asarray(region.quadrature.points, float)
+            ep_ = np.asarray(region.element.points, float)[:npc]
+            near = np.array([int(np.argmin(np.linalg.norm(qp_ - e_, axis=1))) for e_ in ep_])
+            c.trans += 1
+            if not np.array_equal(near, np.arange(npc)):
+                a_ = int(np.flatnonzero(near != np.arange(npc))[0])
+                c.bad("point-order", "quadrature point a of the region's scheme is the one closest to cell point a (values are shifted to the points index by index)", dict(cell_point=a_, closest_quadrature_point=int(near[a_])), "same index")
         V = zoo.offarr(seed, 2000, (3, nq, nc))
         got = fem.topoints(V, region)
         c.trans += 1
